@@ -34,6 +34,8 @@ type c02txn struct {
 	ended     bool
 	abandoned bool
 	uncertain bool // instance-left fault: may have been collected
+	reused    bool // its id was given to a later transaction
+	noReuse   bool // a duplicate end for it is (or was) under way
 }
 
 func runC02(s *kernel.Sim) {
@@ -194,6 +196,8 @@ func runC02(s *kernel.Sim) {
 
 	var txns []*c02txn
 	n := 0
+	reuseIDs := tp.Chance(1, 3)
+	s.Knobs["request_ids_reused"] = reuseIDs
 	path := func(level int) string { return map[int]string{0: "/c", 1: "/p"}[level] }
 	// holders returns how many admitted transactions certainly / possibly hold a
 	// slot of the given quota level at instant `now` as of sequence point `seq`.
@@ -287,6 +291,27 @@ func runC02(s *kernel.Sim) {
 			lv = 1
 		}
 		t := &c02txn{id: fmt.Sprintf("t%d", n), level: lv}
+		// request ids come from the client (x-lunar-req-id): one run in three re-uses
+		// the id of a transaction that is over - ended, or abandoned and certainly
+		// collected by the expiry GC - for a new one
+		if reuseIDs && tp.Chance(1, 3) {
+			now := s.Now()
+			var over []*c02txn
+			for _, o := range txns {
+				if o.level != lv || o.reused || o.noReuse || o.uncertain || !o.admitted {
+					continue
+				}
+				if o.ended || (o.abandoned && o.endInvSeq == 0 && now > o.admitT+E+G+2*time.Second) {
+					over = append(over, o)
+				}
+			}
+			if len(over) > 0 {
+				o := over[tp.Choose(len(over))]
+				o.reused = true
+				t.id = o.id
+				s.FaultFired("request_id_reused_after_its_transaction_was_over")
+			}
+		}
 		txns = append(txns, t)
 		return t
 	}
@@ -433,12 +458,14 @@ func runC02(s *kernel.Sim) {
 			case c == 4: // duplicate end of an already ended transaction
 				var done []*c02txn
 				for _, t := range txns {
-					if t.ended {
+					if t.ended && !t.reused { // an id in use again belongs to the new transaction
 						done = append(done, t)
 					}
 				}
 				if len(done) > 0 {
-					ops = append(ops, op{3, done[tp.Choose(len(done))], false})
+					d := done[tp.Choose(len(done))]
+					d.noReuse = true
+					ops = append(ops, op{3, d, false})
 				}
 			case c == 5: // the instance drops out of the cluster for one GC round
 				if !live.out && tp.Chance(1, 4) {
